@@ -96,6 +96,20 @@ OpsRun(p, c) == Direct(p) \cup UNION {Listen(n).ops : n \in Close(Fires(p, c))}
 Cleared(p, c) == UNION {Listen(n).clear : n \in Close(Fires(p, c))} \cup UNION {OpEffect(o).clear : o \in OpsRun(p, c)}
 Rebuilt(p, c) == UNION {OpEffect(o).rebuild : o \in OpsRun(p, c)}
 
+\* the callbacks registered on a notifier (owner class . method), as the code registers them: used by trace validation
+CallbackNames(n, c) ==
+  CASE n = "plasma"  -> {"BeamAttenuator._change", "Laser._plasma_changed"}
+                        \cup (IF c["P_models"] # 3 THEN {"PlasmaModel._change"} ELSE {})
+                        \cup (IF c["B_models"] # 3 THEN {"BeamModel._change"} ELSE {})
+    [] n = "comp"    -> {"Plasma._modified"}
+    [] n = "pmodels" -> {"Plasma._configure_geometry"}
+    [] n = "beam"    -> {"BeamAttenuator._change"} \cup (IF c["B_models"] # 3 THEN {"BeamModel._change"} ELSE {})
+    [] n = "bmodels" -> {"Beam._configure_geometry"}
+    [] n = "att"     -> {"Beam._modified", "Beam._configure_geometry"}
+    [] n = "profile" -> {"Laser.configure_geometry"}
+\* callbacks that must be notified when parameter p is set (c = configuration after the assignment)
+Required(p, c) == UNION {CallbackNames(n, c) : n \in Close(Fires(p, c))}
+
 Fresh(c)    == [k \in Caches |-> IF k \in Eager THEN <<Proj(k, c)>> ELSE <<>>]
 Observed(c) == [k \in Caches |-> <<Proj(k, c)>>]
 AllOnes == [p \in Params |-> 1]
@@ -107,11 +121,16 @@ Init == /\ cfg = AllOnes
 Log(e) == hist' = Append(hist, e)
 
 \* <object>.<attribute> = value (re-assigning the current value is a supported change too: new objects, same configuration)
+\* except Node.parent, where raysect returns early when the parent is already the one assigned
+NoOpWhenSame == {"P_parent", "B_parent"}
+IsNoOp(p, v) == p \in NoOpWhenSame /\ cfg[p] = v
 Set(p, v) ==
     /\ cfg' = [cfg EXCEPT ![p] = v]
-    /\ cache' = [k \in Caches |-> IF k \in Rebuilt(p, cfg') THEN <<Proj(k, cfg')>>
-                                  ELSE IF k \in Cleared(p, cfg') THEN <<>> ELSE cache[k]]
-    /\ Log([op |-> "set", p |-> p, v |-> v, fired |-> Close(Fires(p, cfg')), ops |-> OpsRun(p, cfg')])
+    /\ cache' = IF IsNoOp(p, v) THEN cache
+                ELSE [k \in Caches |-> IF k \in Rebuilt(p, cfg') THEN <<Proj(k, cfg')>>
+                                       ELSE IF k \in Cleared(p, cfg') THEN <<>> ELSE cache[k]]
+    /\ Log([op |-> "set", p |-> p, v |-> v, fired |-> IF IsNoOp(p, v) THEN {} ELSE Close(Fires(p, cfg')),
+            ops |-> IF IsNoOp(p, v) THEN {} ELSE OpsRun(p, cfg')])
 
 \* an observation fills the lazily computed state it needs from the *current* configuration
 Touches(k) == CASE k = "plasma_ray" -> {"pm"}
